@@ -133,6 +133,26 @@ func c16Send(c *Ctx, fn *ssa.Function) {
 		wid := ssax.FuncID(ssax.CalleeObj(write))
 		wargs := write.Common().Args
 		wOK := wid == "fmt.Fprintln" && strings.HasSuffix(ssax.Path(wargs[0]), "fs.dataFile") && strings.Contains(ssax.Path(wargs[1]), "json.Marshal(") && strings.Count(ssax.Path(wargs[1]), ",") == 0
+		if !wOK && (wid == "os.(File).Write" || wid == "os.(File).WriteString") && strings.HasSuffix(ssax.Path(wargs[0]), "fs.dataFile") {
+			// the same line written by hand: ONE Write of the marshalled bytes with exactly one newline appended
+			if app, isCall := ssax.Resolve(wargs[1]).(*ssa.Call); isCall {
+				if b, isB := app.Common().Value.(*ssa.Builtin); isB && b.Name() == "append" && len(app.Common().Args) == 2 {
+					first := ssax.Path(app.Common().Args[0])
+					nl := false
+					for _, e := range sliceLiteralElems(app.Common().Args[1]) {
+						if k, ok := ssax.ConstInt(e); ok && k == 10 {
+							nl = true
+						} else {
+							nl = false
+							break
+						}
+					}
+					if strings.Contains(first, "json.Marshal(") && strings.Count(first, ",") == 0 && nl && len(sliceLiteralElems(app.Common().Args[1])) == 1 {
+						wOK = true
+					}
+				}
+			}
+		}
 		r.Check(wOK, "C16/R1", "file_storage.send:single-line-write", "the write is one Fprintln of the marshalled message to the data file", c.PosOf(write), "write is "+wid+"("+ssax.Path(wargs[0])+", "+ssax.Path(wargs[len(wargs)-1])+")")
 	}
 }
@@ -231,6 +251,9 @@ func c16AppendOnly(c *Ctx) {
 }
 
 func (c *Ctx) isTestFunc(fn *ssa.Function) bool {
+	if fn.Pkg != nil && c.P.DeadNewPkgs[fn.Pkg.Pkg] {
+		return true // a new package nothing but tests import (load.newUnimportedPackages)
+	}
 	return strings.HasSuffix(c.P.Fset.Position(fn.Pos()).Filename, "_test.go")
 }
 
@@ -634,4 +657,18 @@ func c16IgnoreLookup(v ssa.Value, seen map[string]bool) bool {
 		return false
 	}
 	return true
+}
+
+
+// sliceLiteralElems: the elements of a slice built from a local array literal (the variadic part of append(x, a, b)).
+func sliceLiteralElems(v ssa.Value) []ssa.Value {
+	sl, ok := ssax.Resolve(v).(*ssa.Slice)
+	if !ok {
+		return nil
+	}
+	al, ok := sl.X.(*ssa.Alloc)
+	if !ok {
+		return nil
+	}
+	return ssax.ArrayElems(al)
 }
